@@ -18,6 +18,7 @@ void h_trace(int phase, int stmt);            // records that a statement was re
 void h_printed(unsigned long line);           // records a printed failure (line number)
 int h_plugin_action(int pre);                 // 1: the plugin reports an error
 int h_registry_outcome(int what, int rep);    // fake registry for the exit-value harness
+void h_rep_summary(int isFailure, unsigned long failures, unsigned long run, unsigned long ignored);   // what the summary of a repetition is built from
 }
 
 #define NSTMT 2
@@ -60,6 +61,7 @@ public:
     virtual void printBuffer(const char*) CPPUTEST_OVERRIDE {}
     virtual void flush() CPPUTEST_OVERRIDE {}
     virtual void printFailure(const TestFailure& f) CPPUTEST_OVERRIDE { h_printed(f.getFailureLineNumber()); }
+    virtual void printTestsEnded(const TestResult& r) CPPUTEST_OVERRIDE { h_rep_summary(r.isFailure(), r.getFailureCount(), r.getRunCount(), r.getIgnoredCount()); }
 };
 
 class RecPlugin : public TestPlugin
@@ -115,9 +117,12 @@ public:
     FakeRegistry() : rep(0) {}
     virtual void runAllTests(TestResult& r) CPPUTEST_OVERRIDE
     {
-        r.failureCount_ = (size_t)h_registry_outcome(0, rep);
-        r.runCount_ = (size_t)h_registry_outcome(1, rep);
-        r.ignoredCount_ = (size_t)h_registry_outcome(2, rep);
+        // like the real registry: counters are ADDED to the result it is handed, and the repetition's summary is printed from it
+        r.testsStarted();
+        r.failureCount_ += (size_t)h_registry_outcome(0, rep);
+        r.runCount_ += (size_t)h_registry_outcome(1, rep);
+        r.ignoredCount_ += (size_t)h_registry_outcome(2, rep);
+        r.testsEnded();
         rep++;
     }
 };
